@@ -124,12 +124,13 @@ def inarr_lit(x):
 
 
 def uarg_lit(u):
+    """what utils._parse_to_list makes of the actual Python argument"""
     if u is None:
         return 'UNone'
-    if 'one' in u:
-        return f'(UOne {inarr_lit(unA(u["one"]))})'
-    items = u.get('list', u.get('tuple'))
-    return '(UList [' + ';'.join(inarr_lit(unA(x)) for x in items) + '])'
+    obj = un_uarg(u)
+    if isinstance(obj, (list, tuple)):
+        return '(UList [' + ';'.join(inarr_lit(x) for x in obj) + '])'
+    return f'(UOne {inarr_lit(obj)})'
 
 
 def idx_lit(ix):
@@ -166,6 +167,41 @@ def carrier_lit(D):
             f'{z(D.ulen)} {z(D.vlen)} {blit(D.iscomplex())})')
 
 
+def cmat_lit(m):
+    """contract matrix description -> Coq `option cmat`"""
+    if m is None:
+        return 'None'
+    a = unA(m['arr'])
+    nr, nc = a.shape[-2], a.shape[-1]
+    bs = 'None' if a.ndim == 2 else '(Some [' + ';'.join(z(v) for v in a.shape[:-2]) + '])'
+    mats = a.reshape((int(np.prod(a.shape[:-2])), nr, nc))
+    return f'(Some (mkcmat {bs} {nr} {nc} [' + ';'.join(mlit(x) for x in mats) + f'] {flag(a)}))'
+
+
+def cidx_lit(ix):
+    if ix is None:
+        return 'None'
+    a = np.array(ix['arr'], dtype=int).reshape(ix['shape'])
+    n = a.shape[-1]
+    bs = 'None' if a.ndim == 1 else '(Some [' + ';'.join(z(v) for v in a.shape[:-1]) + '])'
+    rows = a.reshape((int(np.prod(a.shape[:-1])), n))
+    return f'(Some (mkcidx {bs} {n} [' + ';'.join('[' + ';'.join(z(v) for v in r) + ']' for r in rows) + ']))'
+
+
+def un_cmat(m):
+    if m is None:
+        return None
+    a = unA(m['arr'])
+    if m.get('sparse'):
+        import scipy.sparse as sp
+        return {'coo': sp.coo_matrix, 'csr': sp.csr_matrix, 'csc': sp.csc_matrix}[m['sparse']](a)
+    return a
+
+
+def un_cidx(ix):
+    return None if ix is None else np.array(ix['arr'], dtype=int).reshape(ix['shape'])
+
+
 UNOPS = {'copy': 'UCopy', 'pos': 'UPos', 'neg': 'UNeg', 'T': 'UTr', 'transpose': 'UTr', 'conj': 'UConj',
          'real': 'UReal', 'imag': 'UImag'}
 BINOPS = {'add': 'BAdd', 'radd': 'BRadd', 'sub': 'BSub', 'rsub': 'BRsub', 'matmul': 'BMatmul', 'rmatmul': 'BRmatmul',
@@ -199,6 +235,8 @@ def op_lit(st):
         return f'(OGet {st["dst"]} {st["a"]} {idx_lit(st["i"])} {idx_lit(st["j"])})'
     if o == 'set':
         return f'(OSet {st["tgt"]} {idx_lit(st["i"])} {idx_lit(st["j"])} {cval(un_scal(st["v"]))})'
+    if o == 'contract':
+        return f'(OContract {st["a"]} {cmat_lit(st["mat"])} {cidx_lit(st["rows"])} {cidx_lit(st["cols"])})'
     raise KeyError(o)
 
 
@@ -213,13 +251,15 @@ def err_enum(e):
     return 'OtherE'
 
 
-def out_lit(r, isdyad):
+def out_lit(r, isdyad, batch=False):
     """observed result -> Coq `res out`"""
     if isinstance(r, Exception):
         return f'(Er {err_enum(r)})'
     if isdyad(r):
         return '(Ok ONone)'          # the carrier itself is compared through the observed slot state
     a = np.asarray(r)
+    if batch:
+        return f'(Ok (OBatch [' + ';'.join(z(v) for v in a.shape) + f'] ({vlit(a)}) {flag(a)}))'
     if a.ndim == 0:
         return f'(Ok (OScal {cval(a[()])} {flag(a)}))'
     if a.ndim == 1:
@@ -298,6 +338,15 @@ def exec_step(st, store, pym):
             D = store[st['tgt']]
             D[un_idx(st['i']), un_idx(st['j'])] = un_scal(st['v'])
             r = D
+        elif o == 'contract':
+            D = store[st['a']]
+            mat, rows, cols = un_cmat(st['mat']), un_cidx(st['rows']), un_cidx(st['cols'])
+            kw = {}
+            if rows is not None:
+                kw['rows'] = rows
+            if cols is not None:
+                kw['cols'] = cols
+            r = D.contract(mat, **kw) if mat is not None or st.get('explicit_none') else D.contract(**kw)
         else:
             raise KeyError(o)
     except Exception as e:   # noqa
@@ -470,6 +519,46 @@ def dense_step(st, dstore, store_before, pym):
         except (IndexError, ValueError):
             raise Skip('index outside the matrix')
         return M, sh
+    if o == 'contract':
+        M, (r, c) = dm(st['a'])
+        if min(r, c) < 0:
+            raise Skip('unknown shape')
+        mat, rows, cols = un_cmat(st['mat']), un_cidx(st['rows']), un_cidx(st['cols'])
+        if mat is not None and not isinstance(mat, np.ndarray):
+            mat = mat.toarray()
+        bshapes = [x for x in ((mat.shape[:-2] if mat is not None and mat.ndim > 2 else None),
+                               (rows.shape[:-1] if rows is not None and rows.ndim > 1 else None),
+                               (cols.shape[:-1] if cols is not None and cols.ndim > 1 else None)) if x is not None]
+        if any(b != bshapes[0] for b in bshapes):
+            raise Restricted(ValueError)
+        bs = bshapes[0] if bshapes else None
+        P = int(np.prod(bs)) if bs is not None else 1
+        fm = mat.reshape((P,) + mat.shape[-2:]) if mat is not None and mat.ndim > 2 else None
+        fr = rows.reshape((P, rows.shape[-1])) if rows is not None and rows.ndim > 1 else None
+        fc = cols.reshape((P, cols.shape[-1])) if cols is not None and cols.ndim > 1 else None
+        vals = []
+        try:
+            for p in range(P):
+                ri = np.arange(r) if rows is None else (fr[p] if fr is not None else rows)
+                ci = np.arange(c) if cols is None else (fc[p] if fc is not None else cols)
+                sub = M[np.ix_(ri, ci)] if ri.size and ci.size else np.zeros((ri.size, ci.size), dtype=M.dtype)
+                if ri.size and (ri.max() >= r or ri.min() < -r) or ci.size and (ci.max() >= c or ci.min() < -c):
+                    raise IndexError
+                if mat is None:
+                    if sub.shape[0] != sub.shape[1]:
+                        raise Skip('trace of a non-square block')
+                    vals.append(np.trace(sub))
+                else:
+                    B = fm[p] if fm is not None else mat
+                    if B.shape != sub.shape:
+                        raise Skip('matrix does not conform')
+                    vals.append((sub * B).sum())
+        except IndexError:
+            raise Skip('index outside the matrix')
+        res_dtype = np.result_type(M.dtype, mat.dtype if mat is not None else float)
+        if bs is None:
+            return np.asarray(vals[0], dtype=res_dtype), None
+        return np.array(vals, dtype=res_dtype).reshape(bs), None
     raise Skip('no dense statement for ' + o)
 
 
@@ -616,7 +705,7 @@ def gen_step(g, store, pool, malformed):
     dst = r.randint(0, min(len(store), 3))
     known = R_ >= 0 and C_ >= 0
     kinds = ['un', 'un', 'un', 'todense', 'diag', 'get', 'get', 'set', 'set', 'binscal', 'bindense', 'matmul', 'matmul',
-             'mul', 'bindyad', 'bindyad', 'inplace', 'inplace', 'add_dyad']
+             'mul', 'bindyad', 'bindyad', 'inplace', 'inplace', 'add_dyad', 'contract', 'contract', 'contract']
     k = r.choice(kinds)
     if k == 'un':
         ops = ['copy', 'pos', 'neg', 'T', 'transpose', 'conj'] + ([] if many else ['real', 'imag'])
@@ -657,6 +746,8 @@ def gen_step(g, store, pool, malformed):
         if malformed and r.random() < 0.3:
             i, j = g.idx(n, ('int', 'slice')), g.idx(m, ('int', 'arr'))
         return {'op': 'set', 'tgt': a, 'i': i, 'j': j, 'v': v}
+    if k == 'contract' and known:
+        return gen_contract(g, a, R_, C_, malformed)
     if k == 'binscal':
         s = {'re': 0, 'im': None, 'int': r.random() < 0.5, 'np': r.random() < 0.2}
         if r.random() < 0.15:
@@ -716,6 +807,60 @@ def gen_step(g, store, pool, malformed):
     return {'op': 'un', 'k': r.choice(['copy', 'neg', 'T']), 'dst': dst, 'src': a}
 
 
+def gen_contract(g, a, R_, C_, malformed):
+    """one of the documented calling patterns of contract (plain / matrix / sparse / sliced / batched)"""
+    r = g.rng
+    pat = r.choice(['plain', 'mat', 'mat', 'sparse', 'rows', 'cols', 'rowscols', 'bmat', 'brows', 'bmatrows', 'ball', 'bcols', 'bb'])
+    st = {'op': 'contract', 'a': a, 'mat': None, 'rows': None, 'cols': None}
+
+    def index(n, shape):
+        m = int(np.prod(shape))
+        vals = [r.randint(-n, n - 1) if n > 0 else 0 for _ in range(m)]
+        if malformed and m > 0 and r.random() < 0.4:
+            vals[r.randrange(m)] = n + r.randint(0, 1)
+        return {'arr': vals, 'shape': list(shape)}
+    bs = tuple(r.choice([(1,), (2,), (3,), (2, 2), (1, 2)]))
+    if pat == 'bb':
+        bs = tuple(r.choice([(2, 1, 2), (2, 2)]))
+    n = r.randint(1, 3) if R_ > 0 else 0
+    m = r.randint(1, 3) if C_ > 0 else 0
+    bad = malformed and r.random() < 0.6
+    if pat == 'plain':
+        st['explicit_none'] = r.random() < 0.3
+        if R_ != C_ and not malformed:
+            k = min(R_, C_)
+            if r.random() < 0.5 and k > 0:
+                st['rows'], st['cols'] = index(R_, (k,)), index(C_, (k,))
+            else:
+                pat = 'mat'
+    if pat in ('mat', 'sparse'):
+        x = g.arr((R_ + (1 if bad else 0), C_))
+        st['mat'] = {'arr': A(x)}
+        if pat == 'sparse':
+            st['mat']['sparse'] = r.choice(['coo', 'csr', 'csc'])
+    elif pat == 'rows':
+        st['mat'], st['rows'] = {'arr': A(g.arr((n + (1 if bad else 0), C_)))}, index(R_, (n,))
+        if r.random() < 0.3:
+            st['mat']['sparse'] = 'csr'
+    elif pat == 'cols':
+        st['mat'], st['cols'] = {'arr': A(g.arr((R_, m + (1 if bad else 0))))}, index(C_, (m,))
+    elif pat == 'rowscols':
+        st['mat'], st['rows'], st['cols'] = {'arr': A(g.arr((n, m + (1 if bad else 0))))}, index(R_, (n,)), index(C_, (m,))
+    elif pat in ('bmat', 'bb'):
+        st['mat'] = {'arr': A(g.arr(bs + (R_, C_ + (2 if bad else 0))))}
+    elif pat == 'brows':
+        st['mat'], st['rows'] = {'arr': A(g.arr((n, C_)))}, index(R_, bs + (n,))
+    elif pat == 'bcols':
+        st['mat'], st['cols'] = {'arr': A(g.arr((R_, m)))}, index(C_, bs + (m,))
+    elif pat == 'bmatrows':
+        bs2 = bs if not bad else bs + (2,)
+        st['mat'], st['rows'] = {'arr': A(g.arr(bs + (n, C_)))}, index(R_, bs2 + (n,))
+    elif pat == 'ball':
+        bs2 = bs if not bad else (bs[0] + 1,) + bs[1:]
+        st['mat'], st['rows'], st['cols'] = {'arr': A(g.arr(bs + (n, m)))}, index(R_, bs + (n,)), index(C_, bs2 + (m,))
+    return st
+
+
 def pick_operand(g, pool, shape):
     """a dense operand of the given shape: reuse a pool entry (<= 3 live operands) or create one"""
     r = g.rng
@@ -759,11 +904,19 @@ class ProgramRun:
             if slot is not None and slot < len(store) and store[slot] is not None:
                 state = f'(Some {carrier_lit(store[slot])})'
                 dense = f'(Some ({mlit(store[slot].todense())}))'
-            rl = out_lit(res, isdyad) if st['op'] not in INPLACE or isinstance(res, Exception) else '(Ok ONone)'
+            isbatch = st['op'] == 'contract' and not isinstance(res, Exception) and np.ndim(res) >= 1
+            rl = out_lit(res, isdyad, isbatch) if st['op'] not in INPLACE or isinstance(res, Exception) else '(Ok ONone)'
             self.obs.append(f'mkobs {op_lit(st)} {rl} {slot if slot is not None else 0} {state} {dense}')
             kind = st['op'] + (':' + st['k'] if 'k' in st and isinstance(st['k'], str) else '')
             self.kinds.append(kind)
             ctx.count('op:' + kind)
+            src = st.get('a', st.get('src', st.get('tgt')))
+            if src is not None and src < len(objs_before) and objs_before[src] is not None:
+                nd = before[src][0].__len__()
+                ctx.count('operand carrier dyads: ' + ('0' if nd == 0 else '1' if nd == 1 else '2-3' if nd <= 3 else '4+'))
+                ctx.count('operand carrier dtype: ' + ('complex' if before[src][3].kind == 'c' else 'real'))
+                sh = before[src][2]
+                ctx.count('operand carrier shape: ' + ('unknown' if min(sh) < 0 else 'empty' if min(sh) == 0 else 'square' if sh[0] == sh[1] else 'rectangular'))
             if malformed:
                 ctx.count('malformed steps')
             if isinstance(res, Exception):
